@@ -7,13 +7,13 @@ import random, json
 DECL = "b: bool, n: usize, s: &str, xs: &[u32], o: Option<u32>, ps: &[(u32, u32)]"
 ARGSETS = [
   dict(b=True,  n=0, s="a<b", xs=[], o=None, ps=[]),
-  dict(b=False, n=1, s="x&'\"", xs=[7], o=3, ps=[(1, 2)]),
+  dict(b=False, n=1, s="x&'\"\u00e9\u20ac\U0001d11e", xs=[7], o=3, ps=[(1, 2)]),     # special characters and 2-, 3-, 4-byte scalars
   dict(b=True,  n=2, s="",    xs=[1, 2, 3], o=0, ps=[(1, 2), (3, 4)]),
 ]
 def rust_args(a):
     opt = "None" if a["o"] is None else "Some(%d)" % a["o"]
     ps = ", ".join("(%d, %d)" % (x, y) for x, y in a["ps"])
-    return '%s, %d, %s, &[%s], %s, &[%s]' % ("true" if a["b"] else "false", a["n"], json.dumps(a["s"]), ", ".join(map(str, a["xs"])), opt, ps)
+    return '%s, %d, %s, &[%s], %s, &[%s]' % ("true" if a["b"] else "false", a["n"], json.dumps(a["s"], ensure_ascii=False), ", ".join(map(str, a["xs"])), opt, ps)
 def esc(t):
     return t.replace("&", "&amp;").replace("<", "&lt;").replace(">", "&gt;").replace('"', "&quot;").replace("'", "&#39;")
 
